@@ -43,6 +43,17 @@ MUTANTS = [
     ("C10-available-wrong", "C10", "break", A, "        return self._total_tokens - len(self._borrowers)", "        return self._total_tokens - len(self._borrowers) - len(self._wait_queue)", "available_tokens is not the true count"),
     ("C10-rename-local", "C10", "harmless", A, "            event = asyncio.Event()\n            self._wait_queue[borrower] = event\n            try:\n                await event.wait()\n            except BaseException:\n                self._wait_queue.pop(borrower, None)\n                if event.is_set():", "            wakeup = asyncio.Event()\n            self._wait_queue[borrower] = wakeup\n            try:\n                await wakeup.wait()\n            except BaseException:\n                self._wait_queue.pop(borrower, None)\n                if wakeup.is_set():", "local renamed"),
     ("C10-reordered-init", "C10", "harmless", A, "        self._borrowers: set[Any] = set()\n        self._wait_queue: OrderedDict[Any, asyncio.Event] = OrderedDict()\n        self.total_tokens = total_tokens", "        self._wait_queue: OrderedDict[Any, asyncio.Event] = OrderedDict()\n        self._borrowers: set[Any] = set()\n        self.total_tokens = total_tokens", "independent statements reordered"),
+    # ---------------------------------------------------------------- C11 Event / Condition
+    ("C11-F6-release-keeps-owner", "C11", "break", S, "        self._lock.release()\n        self._owner_task = None\n", "        self._lock.release()\n", "finding F6 returns: the recorded owner survives release()"),
+    ("C11-notify-lifo", "C11", "break", S, "                event = self._waiters.popleft()\n            except IndexError:", "                event = self._waiters.pop()\n            except IndexError:", "notify wakes the newest waiter"),
+    ("C11-no-pass-on", "C11", "break", S, "            elif self._waiters:\n                # This task was notified by could not act on it, so pass\n                # it on to the next task\n                self._waiters.popleft().set()\n", "", "a notification given to a waiter that is being cancelled is lost"),
+    ("C11-cancelled-waiter-stays-queued", "C11", "break", S, "            if not event.is_set():\n                self._waiters.remove(event)\n            elif self._waiters:", "            if event.is_set() and self._waiters:", "an interrupted, un-notified waiter clogs the queue"),
+    ("C11-notify-all-forgets-clear", "C11", "break", S, "            event.set()\n\n        self._waiters.clear()\n", "            event.set()\n", "notify_all leaves the (set) events queued"),
+    ("C11-wait-no-entry-check", "C11", "break", S, "        await checkpoint_if_cancelled()\n        self._check_acquired()\n        event = Event()", "        await checkpoint_if_cancelled()\n        event = Event()", "wait() accepted from a task that does not hold the lock"),
+    ("C11-event-wait-returns-unset", "C11", "break", A, "        if self.is_set():\n            await AsyncIOBackend.checkpoint()\n        else:\n            await self._event.wait()", "        await AsyncIOBackend.checkpoint()", "Event.wait returns although set() was never called"),
+    ("C11-adapter-drops-early-set", "C11", "break", S, "            self._internal_event = get_async_backend().create_event()\n            if self._is_set:\n                self._internal_event.set()\n", "            self._internal_event = get_async_backend().create_event()\n", "a set() issued before the loop exists is forgotten when the backend event is created"),
+    ("C11-rename-local", "C11", "harmless", S, "        event = Event()\n        self._waiters.append(event)\n        self.release()\n        try:\n            await event.wait()\n        except BaseException:\n            if not event.is_set():\n                self._waiters.remove(event)", "        ev = Event()\n        self._waiters.append(ev)\n        self.release()\n        try:\n            await ev.wait()\n        except BaseException:\n            if not ev.is_set():\n                self._waiters.remove(ev)", "local renamed"),
+    ("C11-notify-while-loop", "C11", "harmless", S, "        for _ in range(n):\n            try:\n                event = self._waiters.popleft()\n            except IndexError:\n                break\n\n            event.set()\n", "        while n > 0 and self._waiters:\n            self._waiters.popleft().set()\n            n -= 1\n", "notify re-phrased as a correct while loop"),
 ]
 
 
